@@ -46,14 +46,20 @@ var commonAssumptions = []string{
 
 func init() {
 	register(&Def{
+		ID: "C14", Level: "exploration", MinSigs: 500,
+		Rule:        "systematic: every single-point mutation (delete, null, wrong type, empty, duplicate key both orders, unknown key, list append, enum/type-URL substitutions, deep nesting, long strings) at every node of every template memo (3 routes x fee shapes), whole-document and truncation cases; the same over the ICS-20 packet-data tree with hostile amounts/denoms/receivers/senders; PRNG: random bytes and bit flips, attribute extremes (nil integers, empty coins, hostile recipients); envelopes with arbitrary port/channel ids. Executed on the bare orbiter middleware (mode C) with a sample through the real core MsgRecvPacket handler (mode H). Oracle: recover() never fires, an acknowledgement is always returned, certainly-malformed payloads addressed to the orbiter yield an error acknowledgement. non-trivial = every executed input; distinct = distinct (template, site, mutation kind, outcome) tuples",
+		Assumptions: append([]string{"out-of-gas panics of the SDK gas meter are not provoked (infinite gas meter)", "a payload is marked certainly-malformed only for mutation classes whose result cannot be a well-formed payload (see certainMalformed); other mutations are held to no-panic only"}, commonAssumptions...),
+		Run:         withLab(world.Config{}, CheckC14),
+	})
+	register(&Def{
 		ID: "C01", Level: "exploration", MinSigs: 20,
-		Rule: "cases = PRNG-drawn (receiver encoding x route incl. hostile recipients x fee list x amount x prior deposits/pauses/params) executed through the real core MsgRecvPacket handler (mode H) and the bare orbiter middleware (mode C) from a funded base state; a case is non-trivial when the receiver decodes to the orbiter account or the acknowledgement is a success; distinct = distinct (receiver class, route class, fee class, outcome, deposits?, paused?) tuples",
+		Rule:        "cases = PRNG-drawn (receiver encoding x route incl. hostile recipients x fee list x amount x prior deposits/pauses/params) executed through the real core MsgRecvPacket handler (mode H) and the bare orbiter middleware (mode C) from a funded base state; a case is non-trivial when the receiver decodes to the orbiter account or the acknowledgement is a success; distinct = distinct (receiver class, route class, fee class, outcome, deposits?, paused?) tuples",
 		Assumptions: commonAssumptions,
 		Run:         withLab(world.Config{}, CheckC01),
 	})
 	register(&Def{
 		ID: "C02", Level: "exploration", MinSigs: 20,
-		Rule: "cases = PRNG-drawn successful orbiter transfers (calibrated destination x fee list x boundary-biased amount 1..2^256-1 x prior deposits) through the real core MsgRecvPacket handler, a complete boundary grid (destination x amount edge x 5 fee shapes), and accumulating histories interleaved with deposits and non-orbiter receives; oracle = exact equality of the full-ledger delta (all accounts, all denoms, supply) with the model; non-trivial = success acknowledgement; distinct = (route template, fee class, amount width bucket, deposits?) tuples and grid cells",
+		Rule:        "cases = PRNG-drawn successful orbiter transfers (calibrated destination x fee list x boundary-biased amount 1..2^256-1 x prior deposits) through the real core MsgRecvPacket handler, a complete boundary grid (destination x amount edge x 5 fee shapes), and accumulating histories interleaved with deposits and non-orbiter receives; oracle = exact equality of the full-ledger delta (all accounts, all denoms, supply) with the model; non-trivial = success acknowledgement; distinct = (route template, fee class, amount width bucket, deposits?) tuples and grid cells",
 		Assumptions: commonAssumptions,
 		Run:         withLab(world.Config{}, CheckC02),
 	})
